@@ -110,11 +110,11 @@ Proof. intros; split; auto. Qed.
 Ltac crush_moved b :=
   exists b; cbn; repeat split; auto.
 
-Lemma kill_pods_outcome : forall w rt tg u F w' e wr,
-  kill_pods w rt tg u F = (w', e, wr) ->
+Lemma kill_pods_outcome : forall fixed w rt tg u F w' e wr,
+  kill_pods_gen fixed w rt tg u F = (w', e, wr) ->
   outcome (v_spec w) (match tg with None => KKill rt | Some _ => KTarget end) u w w' e wr.
 Proof.
-  intros w rt tg u F w' e wr H. unfold kill_pods in H.
+  intros fixed w rt tg u F w' e wr H. unfold kill_pods_gen in H.
   destruct tg as [[t|t p|]|].
   all: try (destruct (kill_select _ _ _ _ _) as [kill term0] eqn:Hsel;
             destruct (any_fault F kill); [inversion H; subst; clear H|
@@ -234,8 +234,8 @@ Proof.
   destruct (exec (st_phase (v_st w)) a) as [k u]. cbn [fst snd].
   destruct k.
   - apply (sync_job_outcome w u F); exact H.
-  - apply (kill_pods_outcome w r0 None u F); exact H.
-  - apply (kill_pods_outcome w RNone (Some (target_of a r)) u F); exact H.
+  - apply (kill_pods_outcome true w r0 None u F); exact H.
+  - apply (kill_pods_outcome true w RNone (Some (target_of a r)) u F); exact H.
 Qed.
 
 (* ---------- facts about the (phase, action) table, by enumeration ---------- *)
@@ -446,10 +446,10 @@ Proof.
   - rewrite pod_ids_api_delete. apply pod_ids_api_patch.
 Qed.
 
-Lemma kill_pods_ids : forall w rt tg u F w' e wr,
-  kill_pods w rt tg u F = (w', e, wr) -> pod_ids (w_pods w') = pod_ids (w_pods w).
+Lemma kill_pods_ids : forall fixed w rt tg u F w' e wr,
+  kill_pods_gen fixed w rt tg u F = (w', e, wr) -> pod_ids (w_pods w') = pod_ids (w_pods w).
 Proof.
-  intros w rt tg u F w' e wr H. unfold kill_pods in H.
+  intros fixed w rt tg u F w' e wr H. unfold kill_pods_gen in H.
   destruct tg as [[t|t p|]|].
   all: try (destruct (kill_select _ _ _ _ _) as [kill term0] eqn:Hsel;
             destruct (any_fault F kill); [inversion H; subst; clear H|
@@ -462,10 +462,10 @@ Qed.
 (* the written status of every successful kill: all five phase counters are zero
    and the per-task table is empty, whatever pods were retained (defect F2) *)
 Theorem kill_zeroes_counters : forall w rt tg u F w',
-  kill_pods w rt tg u F = (w', false, true) ->
+  kill_pods_prefix w rt tg u F = (w', false, true) ->
   st_cnt (w_st w') = c0 /\ st_tsc (w_st w') = [].
 Proof.
-  intros w rt tg u F w' H. unfold kill_pods in H.
+  intros w rt tg u F w' H. unfold kill_pods_prefix, kill_pods_gen in H.
   destruct tg as [[t|t p|]|].
   all: try (destruct (kill_select _ _ _ _ _) as [kill term0] eqn:Hsel;
             destruct (any_fault F kill); [inversion H|
@@ -500,7 +500,7 @@ Proof.
     + congruence.
     + destruct (oc_api _ _ _ _ _ _ _ O) as [E|[E|[E _]]]; try congruence.
       rewrite E in Hf. discriminate.
-    + rewrite (kill_pods_ids _ _ _ _ _ _ _ _ H). apply incl_refl.
+    + rewrite (kill_pods_ids true _ _ _ _ _ _ _ _ H). apply incl_refl.
   - inversion H; subst; clear H. cbn. repeat split; auto.
     rewrite pod_ids_update; [apply incl_refl|intros p; split; reflexivity].
   - inversion H; subst; clear H. cbn. repeat split; auto. rewrite pod_ids_api_delete. apply incl_refl.
@@ -582,34 +582,47 @@ Definition f2_world : world :=
     (mkStatus PhCompleted 0 0 1 (mkC 0 0 1 0 0) 0 [(1%positive, mkC 0 0 1 0 0)] false false)
     [mkPod 1 0 PSucceeded false false] (Some PgRunning).
 
-Theorem counters_partition_refuted : ~ counters_partition_statement.
-Proof.
-  intros H.
-  specialize (H f2_world sync_req (fst (fst (step_req f2_world sync_req []))) true).
-  assert (F : fresh_world f2_world) by (repeat split).
-  specialize (H F eq_refl eq_refl). vm_compute in H. discriminate.
-Qed.
-
-(* second class: an out-of-sync pod that is still alive is counted by its phase
-   AND as terminating by syncJob *)
-Definition oos_world : world :=
-  init_world one_task_spec
-    (mkStatus PhRunning 0 0 1 (mkC 0 1 0 0 0) 0 [(1%positive, mkC 0 1 0 0 0)] false false)
-    [mkPod 1 0 PRunning false true] (Some PgRunning).
-Theorem counters_partition_refuted_out_of_sync :
-  exists w', step_req oos_world sync_req [] = (w', false, true) /\ fresh_world oos_world /\
-             partition_ok (w_st w') (w_pods w') = false /\
-             st_cnt (w_st w') = mkC 0 1 0 0 0 /\ st_term (w_st w') = 1 /\ length (w_pods w') = 1%nat.
-Proof. eexists. split; [vm_compute; reflexivity|]. repeat split. Qed.
-
-(* third class: while the PodGroup is not admitted the counters are not recomputed *)
+(* still refuted after the two fixes: while the PodGroup is not admitted the
+   counters are not recomputed (known finding C05-pgpending-stale-counters) *)
 Definition pgpending_world : world :=
   init_world one_task_spec
     (mkStatus PhRestarting 3 1 1 c0 1 [] false true) [] None.
+Theorem counters_partition_refuted : ~ counters_partition_statement.
+Proof.
+  intros H.
+  specialize (H pgpending_world sync_req (fst (fst (step_req pgpending_world sync_req []))) true).
+  assert (F : fresh_world pgpending_world) by (repeat split).
+  specialize (H F eq_refl eq_refl). vm_compute in H. discriminate.
+Qed.
 Theorem counters_partition_refuted_pg_pending :
   exists w', step_req pgpending_world sync_req [] = (w', false, true) /\ fresh_world pgpending_world /\
              partition_ok (w_st w') (w_pods w') = false /\ st_term (w_st w') = 1 /\ w_pods w' = [].
 Proof. eexists. split; [vm_compute; reflexivity|]. repeat split. Qed.
+
+(* F2 on the PRE-FIX killPods: a Completed job with its retained Succeeded pod;
+   finishedState kills the job and writes succeeded = 0.  The fixed function
+   writes succeeded = 1 on the same input. *)
+Theorem killpods_counters_prefix_refuted :
+  exists w', kill_pods_prefix f2_world RSoft None UNil [] = (w', false, true) /\ fresh_world f2_world /\
+             partition_ok (w_st w') (w_pods w') = false /\ st_cnt (w_st w') = c0 /\ length (w_pods w') = 1%nat.
+Proof. eexists. split; [vm_compute; reflexivity|]. repeat split. Qed.
+Example killpods_counters_fixed_on_witness :
+  exists w', step_req f2_world sync_req [] = (w', false, true) /\
+             partition_ok (w_st w') (w_pods w') = true /\ st_cnt (w_st w') = mkC 0 0 1 0 0.
+Proof. eexists. split; [vm_compute; reflexivity|]. split; reflexivity. Qed.
+
+(* the PRE-FIX syncJob counted a live out-of-sync pod by its phase AND as terminating *)
+Definition oos_world : world :=
+  init_world one_task_spec
+    (mkStatus PhRunning 0 0 1 (mkC 0 1 0 0 0) 0 [(1%positive, mkC 0 1 0 0 0)] false false)
+    [mkPod 1 0 PRunning false true] (Some PgRunning).
+Theorem sync_counters_prefix_refuted :
+  let a := sync_pods_prefix one_task_spec (w_pods oos_world) (w_pods oos_world) [] in
+  a_err a = false /\ (a_cnt a, a_term a) = (mkC 0 1 0 0 0, 1) /\ tally (a_pods a) = (c0, 1) /\ length (a_pods a) = 1%nat.
+Proof. vm_compute. repeat split. Qed.
+Example sync_counters_fixed_on_witness :
+  exists w', step_req oos_world sync_req [] = (w', false, true) /\ partition_ok (w_st w') (w_pods w') = true.
+Proof. eexists. split; vm_compute; reflexivity. Qed.
 
 (* ---------- non-vacuity ---------- *)
 Example final_inv_nonvacuous :
